@@ -495,3 +495,24 @@ def desc_level(b):
                           any(cint(x) == 0 for x in a[1] if isinstance(x, tuple))]
                 return ph, ph[4], guards
     return None
+
+
+def closure_paths(fb, cl, elem=ELEM):
+    """the return paths of a closure term as [(conditions, returned value)], written over the caller's values: the closure's own
+    argument becomes `elem` and every captured variable the term it had in the caller when the closure was built"""
+    from .symex import Engine, subst
+    if not (isinstance(cl, tuple) and cl and cl[0] == "closure"):
+        return None
+    it = fb.items.get(cl[1])
+    if it is None:
+        return None
+    m1 = {P(2): elem}
+    m2 = {F(P(1), str(k)): v for k, v in enumerate(cl[2])}
+    tr = lambda t: subst(subst(t, m1), m2) if isinstance(t, tuple) else t
+    eng = Engine(fb, inline=lambda i: False)
+    out = []
+    for p in eng.run(it):
+        if p.kind != "return":
+            continue
+        out.append(([(tr(a), v) for a, v in p.conds()], tr(eng.value_of(p.store, p.ret))))
+    return out
